@@ -230,6 +230,12 @@ fn run_generate(
             &config,
         )
         .unwrap_or(true) // On error, assume regeneration is needed
+            // A matching cache is not enough: a generated file may have been deleted since
+            || !GenerationCache::outputs_present(
+                &config.output_path,
+                !analyzer.get_discovered_events().is_empty(),
+                config.should_visualize_deps(),
+            )
     };
 
     if !needs_regeneration {
